@@ -64,6 +64,23 @@ def scaleStep (s : ScaleSt) (line : String) : ScaleSt × String :=
       let d := dump "ok" s'
       (s', d ++ " ||| " ++ (if impl == d then "ok" else "bad:C13:C13:finished-replica-view"))
     | none => (s, "bad-op")
+  | ["scupd", n] =>
+    match n.toNat? with
+    | some n =>
+      let s := { s with w := s.w }
+      if n = s.cur.length then
+        -- the edited file describes the running set: nothing is touched
+        let d := dump "ok" s
+        (s, d ++ " ||| " ++ (if impl == d then "ok" else "bad:C14,C13:C14:unchanged-project-update-must-change-nothing; C13:unchanged-project-update-must-change-nothing"))
+      else
+        -- every replica's configuration changes (its `replicas` field): each running one is stopped,
+        -- every replica of the new set is started once
+        let live := (s.cur.filter fun r => !s.ended.contains r.num).length
+        let s' : ScaleSt := { s with w := { s.w with replicas := n }, cur := PC.Load.replicasOf s.g s.w n,
+                                     launches := s.launches + n, stops := s.stops + live, ended := [] }
+        let d := dump "ok" s'
+        (s', d ++ " ||| " ++ (if impl == d then "ok" else "bad:C14,C13:C14:update-does-not-converge-to-the-new-replica-set; C13:not-the-replica-set-of-a-fresh-load"))
+    | none => (s, "bad-op")
   | ["scale", th, n] =>
     match hexDec th, n.toInt? with
     | some target, some n =>
